@@ -10,7 +10,7 @@ theorem inv_init (nv : Bool) (rs : Nat → Bool) : Inv (init nv rs) := by
 set_option hygiene false in
 /-- open the invariant: names every field, splits the goal into one goal per field -/
 macro "inv_open" : tactic => `(tactic| (
-  obtain ⟨mutex, sawGo, preSet, win, unl, freshW, freshP, snapW, snapJ, liveW, liveJ, noLost, emptyW, emptyJ, inJ, locThen, locErr, locQ, nodupQ, locD, nodupD, locFresh, ranLoc, errLoc, ranGo, remLoc, errRaises⟩ := h
+  obtain ⟨mutex, sawGo, preSet, win, unl, freshW, freshP, snapW, snapJ, liveW, liveJ, noLost, emptyW, emptyJ, inJ, locThen, locErr, locQ, nodupQ, locD, nodupD, locFresh, ranLoc, errLoc, ranGo, remLoc, errRaises, g9ne, g10ne, locBorn⟩ := h
   constructor
   all_goals simp only [State.setPc, State.setPcG, State.winPC] at *))
 
@@ -138,6 +138,18 @@ macro "f_errRaises" : tactic => `(tactic| (
     intro k u; have := errRaises k u; grind))
 
 set_option hygiene false in
+macro "f_g9ne" : tactic => `(tactic| (
+    intro u js ws; have := g9ne u js ws; grind [afterJob, afterStoppers]))
+
+set_option hygiene false in
+macro "f_g10ne" : tactic => `(tactic| (
+    intro u js; have := g10ne u js; grind [afterJob, afterStoppers]))
+
+set_option hygiene false in
+macro "f_locBorn" : tactic => `(tactic| (
+    intro k; have := locBorn k; grind))
+
+set_option hygiene false in
 /-- all fields by their default tactic -/
 macro "inv_case" : tactic => `(tactic| (
   inv_open
@@ -167,7 +179,10 @@ macro "inv_case" : tactic => `(tactic| (
   · f_errLoc
   · f_ranGo
   · f_remLoc
-  · f_errRaises))
+  · f_errRaises
+  · f_g9ne
+  · f_g10ne
+  · f_locBorn))
 
 /-- reduce `step s t = some (s', l)` at a known pc -/
 macro "step_at" hp:ident hs:ident : tactic => `(tactic| (
@@ -215,7 +230,10 @@ macro "inv_case_dbg" : tactic => `(tactic| (
   · first | f_errLoc | (trace "FAILED errLoc"; sorry)
   · first | f_ranGo | (trace "FAILED ranGo"; sorry)
   · first | f_remLoc | (trace "FAILED remLoc"; sorry)
-  · first | f_errRaises | (trace "FAILED errRaises"; sorry)))
+  · first | f_errRaises | (trace "FAILED errRaises"; sorry)
+  · first | f_g9ne | (trace "FAILED g9ne"; sorry)
+  · first | f_g10ne | (trace "FAILED g10ne"; sorry)
+  · first | f_locBorn | (trace "FAILED locBorn"; sorry)))
 
 set_option hygiene false in
 macro "step_case_dbg" : tactic => `(tactic| (step_open; inv_case_dbg))
@@ -232,9 +250,10 @@ macro "loc_facts" : tactic => `(tactic| (
   have hG := h.ranGo k
   have hRm := h.remLoc k
   have hRs := fun u => h.errRaises k u
+  have hB := h.locBorn k
   have hT : ∀ u, (s.pc u).thenK = some k ↔ s.loc k = .inThen u := fun u => h.locThen u k
   have hE : ∀ u, (s.pc u).errK = some k ↔ s.loc k = .erring u := fun u => h.locErr u k
-  simp only [hk] at hQ hD hR hEr hG hRm hT hE hRs))
+  simp only [hk] at hQ hD hR hEr hG hRm hT hE hRs hB))
 
 set_option hygiene false in
 /-- discharge every remaining field goal (found by its tag) with its default tactic -/
@@ -265,6 +284,9 @@ macro "inv_rest" : tactic => `(tactic| (
   try (case errLoc => f_errLoc)
   try (case ranGo => f_ranGo)
   try (case remLoc => f_remLoc)
-  try (case errRaises => f_errRaises)))
+  try (case errRaises => f_errRaises)
+  try (case g9ne => f_g9ne)
+  try (case g10ne => f_g10ne)
+  try (case locBorn => f_locBorn)))
 
 end MoThreads.SignalCore
